@@ -285,6 +285,27 @@ def digit_doc():
     return d
 
 
+def t_long():
+    """long and deep legal queries (vf/gen/longq.py) must print, recompile, be fixed points and keep their results"""
+    from ..gen import longq
+    stats = Stats()
+    docs = longq.long_docs()
+    small = [docs[0], docs[3]["b"][:20], docs[5]]
+    n = 0
+    for name, e in longq.long_filters():
+        r = judge(stats, Renderer(None).query(["q", "$", [["c", [["f", e]]]]], top=True), small, "long")
+        stats.cls("long:" + r[0])
+        stats.nt("long", name)
+        n += 1
+    for name, ast in longq.long_queries():
+        r = judge(stats, Renderer(None).query(ast, top=True), [docs[1], docs[2], docs[3]], "long")
+        stats.cls("long:" + r[0])
+        stats.nt("long", name)
+        n += 1
+    stats.subspaces.append({"name": "148 long / deep legal queries (chains of up to 100 operands, depth up to 99, 130 selectors / segments)", "size": n, "exhaustive": True})
+    return stats
+
+
 def t_digits():
     """indices, slice bounds and number literals spelled with non-ASCII decimal digits (the lexer's \\d admits them)"""
     stats = Stats()
@@ -348,7 +369,7 @@ def render_string(s, q):
 
 
 def tasks(tier, seed):
-    ts = [{"name": "literals", "fn": "t_literals"}, {"name": "digits", "fn": "t_digits"},
+    ts = [{"name": "literals", "fn": "t_literals"}, {"name": "digits", "fn": "t_digits"}, {"name": "long", "fn": "t_long"},
           {"name": "floats", "fn": "t_floats", "kw": {"seed": mix(seed, ID, "floats"), "n": 2500 if tier == "quick" else 40000}}]
     ts += [{"name": "skeletons-%d" % k, "fn": "t_skeletons", "kw": {"shard": k, "nshards": 5}} for k in range(5)]
     n = 3000 if tier == "quick" else 50000
